@@ -232,10 +232,11 @@ class Check:
                 self.obligations.append({'name': t, 'kind': 'coq-file', 'ok': built})
                 if ok is False and not os.path.exists(vo) and not any(t in b for b in self.broken):
                     self.broken.append('not built: ' + t)
-            if props:
-                pok, thms, plog, missing = props_compile(props)
+            plist = [props] if isinstance(props, str) else list(props or [])
+            for pf in plist:
+                pok, thms, plog, missing = props_compile(pf)
                 if not pok:
-                    self.broken.append('Props/%s.v does not compile: %s' % (props, ' '.join(plog.split())[-300:]))
+                    self.broken.append('Props/%s.v does not compile: %s' % (pf, ' '.join(plog.split())[-300:]))
                 for th in thms:
                     axs = th['axioms']
                     good = pok and axs is not None and all(a.split('.')[-1] in {x.split('.')[-1] for x in STD_AXIOMS_ALLOWED} for a in axs)
@@ -245,7 +246,7 @@ class Check:
                 for n in missing:
                     self.obligations.append({'name': n, 'kind': 'theorem', 'ok': False, 'detail': 'no Print Assumptions'})
                     self.broken.append('theorem %s has no Print Assumptions' % n)
-            self.checker_cmd = 'make -C coq %s && coqc -Q coq NV coq/Props/%s.v' % (' '.join(targets), props)
+            self.checker_cmd = 'make -C coq %s && ' % ' '.join(targets) + ' && '.join('coqc -Q coq NV coq/Props/%s.v' % pf for pf in plist)
         return not self.broken
 
     def model(self, name=None):
